@@ -34,6 +34,8 @@ type LPkg struct {
 	SPkg   *ssa.Package
 	CF     *ContractFile
 	Units  map[string]*FuncUnit // by contract key
+	Drift  map[string]string    // contract units dropped because the code drifted away (key -> reason)
+	Extern map[*ssa.Function]*FuncUnit // assumed contracts on functions of other modules
 	Lemmas []*LemmaUnit
 	posIdx map[*ast.File]map[token.Pos]ast.Node
 }
@@ -190,52 +192,95 @@ func Load(patterns []string) (*Loaded, error) {
 				}
 			}
 		}
-		stubSrc, err := ld.genStub(lp)
-		if err != nil {
-			return nil, err
-		}
-		lp.StubSrc = stubSrc
-		files := append([]*ast.File{}, lp.Files...)
-		if stubSrc != "" {
-			sf, err := parser.ParseFile(fset, filepath.Join(repoDir, lp.Rel, "verif_stub_generated.go"), stubSrc, parser.ParseComments)
+		skip := map[string]string{}
+		lp.Drift = skip
+		var tp *types.Package
+		var info *types.Info
+		for attempt := 0; ; attempt++ {
+			stubSrc, err := ld.genStub(lp, skip)
 			if err != nil {
-				dumpStub(lp, stubSrc)
-				return nil, fmt.Errorf("contract stub for %s does not parse: %v", lp.Path, err)
+				return nil, err
 			}
-			lp.Stub = sf
-			files = append(files, sf)
-		}
-		info := &types.Info{
-			Types:        map[ast.Expr]types.TypeAndValue{},
-			Defs:         map[*ast.Ident]types.Object{},
-			Uses:         map[*ast.Ident]types.Object{},
-			Implicits:    map[ast.Node]types.Object{},
-			Selections:   map[*ast.SelectorExpr]*types.Selection{},
-			Scopes:       map[ast.Node]*types.Scope{},
-			Instances:    map[*ast.Ident]types.Instance{},
-			FileVersions: map[*ast.File]string{},
-		}
-		var terrs []string
-		gov := ""
-		if p.Module != nil && p.Module.GoVersion != "" {
-			gov = "go" + p.Module.GoVersion
-		}
-		tc := &types.Config{
-			Importer:  imp,
-			GoVersion: gov,
-			Sizes:     types.SizesFor("gc", "amd64"),
-			Error: func(err error) {
-				s := err.Error()
-				if strings.Contains(s, "imported and not used") || strings.Contains(s, "declared and not used") {
-					return
+			lp.StubSrc = stubSrc
+			lp.Stub = nil
+			files := append([]*ast.File{}, lp.Files...)
+			stubName := filepath.Join(repoDir, lp.Rel, fmt.Sprintf("verif_stub_generated_%d.go", attempt))
+			if stubSrc != "" {
+				sf, err := parser.ParseFile(fset, stubName, stubSrc, parser.ParseComments)
+				if err != nil {
+					dumpStub(lp, stubSrc)
+					return nil, fmt.Errorf("contract stub for %s does not parse: %v", lp.Path, err)
 				}
-				terrs = append(terrs, s)
-			},
-		}
-		tp, _ := tc.Check(p.PkgPath, fset, files, info)
-		if len(terrs) > 0 {
-			dumpStub(lp, stubSrc)
-			return nil, fmt.Errorf("contract drift / type errors in %s (stub dumped to %s): %s", lp.Path, stubDumpPath(lp), strings.Join(terrs, "; "))
+				lp.Stub = sf
+				files = append(files, sf)
+			}
+			info = &types.Info{
+				Types:        map[ast.Expr]types.TypeAndValue{},
+				Defs:         map[*ast.Ident]types.Object{},
+				Uses:         map[*ast.Ident]types.Object{},
+				Implicits:    map[ast.Node]types.Object{},
+				Selections:   map[*ast.SelectorExpr]*types.Selection{},
+				Scopes:       map[ast.Node]*types.Scope{},
+				Instances:    map[*ast.Ident]types.Instance{},
+				FileVersions: map[*ast.File]string{},
+			}
+			var terrs []types.Error
+			gov := ""
+			if p.Module != nil && p.Module.GoVersion != "" {
+				gov = "go" + p.Module.GoVersion
+			}
+			tc := &types.Config{
+				Importer:  imp,
+				GoVersion: gov,
+				Sizes:     types.SizesFor("gc", "amd64"),
+				Error: func(err error) {
+					s := err.Error()
+					if strings.Contains(s, "imported and not used") || strings.Contains(s, "declared and not used") {
+						return
+					}
+					if te, ok := err.(types.Error); ok {
+						terrs = append(terrs, te)
+					} else {
+						terrs = append(terrs, types.Error{Msg: s})
+					}
+				},
+			}
+			tp, _ = tc.Check(p.PkgPath, fset, files, info)
+			if len(terrs) == 0 {
+				break
+			}
+			// attribute each error to the contract unit whose stub functions contain it
+			progressed := false
+			var fatal []string
+			lines := strings.Split(stubSrc, "\n")
+			for _, te := range terrs {
+				pos := fset.Position(te.Pos)
+				key := ""
+				if pos.Filename == stubName {
+					for l := pos.Line - 1; l >= 0 && l < len(lines); l-- {
+						if strings.HasPrefix(lines[l], "// @unit ") {
+							key = strings.TrimSpace(strings.TrimPrefix(lines[l], "// @unit "))
+							break
+						}
+					}
+				}
+				if key == "" {
+					fatal = append(fatal, te.Error())
+					continue
+				}
+				if _, dup := skip[key]; !dup {
+					skip[key] = "contract does not type-check against the current code: " + te.Msg
+					progressed = true
+				}
+			}
+			if len(fatal) > 0 || !progressed || attempt > 20 {
+				dumpStub(lp, stubSrc)
+				var all []string
+				for _, te := range terrs {
+					all = append(all, te.Error())
+				}
+				return nil, fmt.Errorf("type errors in %s (stub dumped to %s): %s", lp.Path, stubDumpPath(lp), strings.Join(all, "; "))
+			}
 		}
 		lp.TPkg = tp
 		lp.Info = info
@@ -296,6 +341,8 @@ func LE64(b []byte, i int) uint64 {
 	return uint64(b[i]) | uint64(b[i+1])<<8 | uint64(b[i+2])<<16 | uint64(b[i+3])<<24 |
 		uint64(b[i+4])<<32 | uint64(b[i+5])<<40 | uint64(b[i+6])<<48 | uint64(b[i+7])<<56
 }
+// arrID: identity of the backing array of s (0 for nil).
+func arrID(s []byte) int { panic("spec") }
 // sameArr: the two slices share their backing array.
 func sameArr(a, b []byte) bool { panic("spec") }
 // sameSlice: same backing array, offset and length.
@@ -543,7 +590,33 @@ func resolveFuncKey(tp *types.Package, key string) (*types.Func, *types.Named, s
 	return nil, nil, "", fmt.Errorf("method %s not found (contract drift)", key)
 }
 
-func (ld *Loaded) genStub(lp *LPkg) (string, error) {
+// driftError: a contract refers to something the current code no longer has (function, loop,
+// statement, variable).  The unit is dropped from this run and reported as undecided.
+type driftError struct{ Key, Msg string }
+
+func (e *driftError) Error() string { return e.Key + ": " + e.Msg }
+
+// genStub generates the stub, dropping (and recording in skip) every unit whose contract has
+// drifted away from the code.
+func (ld *Loaded) genStub(lp *LPkg, skip map[string]string) (string, error) {
+	for {
+		lp.Units = map[string]*FuncUnit{}
+		cur := ""
+		src, err := ld.genStubOnce(lp, skip, &cur)
+		if err == nil {
+			return src, nil
+		}
+		if cur == "" {
+			return "", err
+		}
+		if _, dup := skip[cur]; dup {
+			return "", err
+		}
+		skip[cur] = err.Error()
+	}
+}
+
+func (ld *Loaded) genStubOnce(lp *LPkg, skip map[string]string, cur *string) (string, error) {
 	p := lp.P1
 	used := map[string]string{}
 	qual := ifaceQual(ld, p.Types, used)
@@ -560,6 +633,11 @@ func (ld *Loaded) genStub(lp *LPkg) (string, error) {
 	n := 0
 	for _, fc := range cf.Funcs {
 		n++
+		if _, dropped := skip[fc.Key]; dropped {
+			continue
+		}
+		*cur = fc.Key
+		fmt.Fprintf(&body, "// @unit %s\n", fc.Key)
 		u := &FuncUnit{Pkg: lp, C: fc, Key: fc.Key, Loops: map[int]*LoopUnit{}, id: fmt.Sprintf("%d", n)}
 		var obj *types.Func
 		var ifaceT *types.Named
@@ -820,6 +898,8 @@ func (ld *Loaded) genStub(lp *LPkg) (string, error) {
 			fmt.Fprintf(&body, "func _vcassert_%s_%d(%s) bool {\n\treturn %s // line %d\n}\n", u.id, k, strings.Join(ds, ", "), ac.Clause.Expr, ac.Line)
 		}
 	}
+	*cur = ""
+	body.WriteString("// @unit \n")
 	for i, l := range cf.Lemmas {
 		fmt.Fprintf(&body, "func _vclemma_%d() bool { return %s } // %s line %d\n", i, l.Expr, l.Name, l.Line)
 	}
@@ -889,6 +969,33 @@ func findStmt(fset *token.FileSet, body *ast.BlockStmt, anchor string) (ast.Stmt
 		return nil, fmt.Errorf("statement %q#%d not found", anchor, want)
 	}
 	if len(uniq) == 0 {
+		// tolerate small edits inside the statement: unique longest common prefix covering
+		// at least 60% of the anchor
+		var best ast.Stmt
+		bestN, ties := 0, 0
+		ast.Inspect(body, func(n ast.Node) bool {
+			if _, ok := n.(*ast.FuncLit); ok {
+				return false
+			}
+			if s, ok := n.(ast.Stmt); ok {
+				if _, isBlock := s.(*ast.BlockStmt); !isBlock {
+					t := squeeze(nodeText(fset, s))
+					k := 0
+					for k < len(t) && k < len(a) && t[k] == a[k] {
+						k++
+					}
+					if k > bestN {
+						best, bestN, ties = s, k, 0
+					} else if k == bestN && best != nil && s.Pos() != best.Pos() {
+						ties++
+					}
+				}
+			}
+			return true
+		})
+		if best != nil && ties == 0 && bestN*10 >= len(a)*6 {
+			return best, nil
+		}
 		return nil, fmt.Errorf("statement %q not found", anchor)
 	}
 	if len(uniq) > 1 {
@@ -938,7 +1045,11 @@ func (ld *Loaded) bind(lp *LPkg) error {
 			if u.Fn == nil {
 				return fmt.Errorf("no SSA function for extern %s", u.Key)
 			}
-			ld.ByFn[u.Fn] = u
+			// assumed contracts on other modules' functions hold for calls made from this package only
+			if lp.Extern == nil {
+				lp.Extern = map[*ssa.Function]*FuncUnit{}
+			}
+			lp.Extern[u.Fn] = u
 		} else {
 			obj2, _, _, err := resolveFuncKey(lp.TPkg, u.Key)
 			if err != nil {
